@@ -59,6 +59,73 @@ Theorem C13_context_shows_sender :
 Proof. exact C13_context_shows_sender_thm. Qed.
 Print Assumptions C13_context_shows_sender.
 
+(** * C02 — glue to the inbox layer: one message at a time covers lifecycle messages and restarts *)
+
+(* process.go obeys the protocol under which InboxProofs proves the mutex
+   ([valid_start]: at most one Start of the inbox, none after a Stop): in
+   every run there is at most one [InboxStart true] (an Inbox.Start that
+   really opens the inbox and may schedule a worker); after an [InboxStop] no
+   Inbox.Start of any kind occurs (this is what the [dead] flag provides); and
+   every [InboxStart false] — Inbox.Start on an inbox that is already open,
+   after a restart: its CAS stopped->starting fails and nothing happens —
+   lies after the opening and before any stop *)
+Theorem C02_inbox_opened_at_most_once_and_never_after_stop :
+  forall f c xs s t, stopped_safe c -> run f c xs = (s, t) -> out_of_fuel t = false ->
+  count_ev (fun e => match e with InboxStart true => true | _ => false end) t <= 1 /\
+  (forall t1 t2, t = t1 ++ InboxStop :: t2 ->
+     Forall (fun e => match e with InboxStart _ => False | _ => True end) t2) /\
+  (forall t1 t2, t = t1 ++ InboxStart false :: t2 -> In (InboxStart true) t1 /\ ~ In InboxStop t1).
+Proof. exact C02_inbox_opened_at_most_once_and_never_after_stop_thm. Qed.
+Print Assumptions C02_inbox_opened_at_most_once_and_never_after_stop.
+
+(* a run is [t0 ++ t1 ++ t2]: [t0] is the trace of the first Start, on the
+   spawner's goroutine; either it ended with the actor dead and never opened
+   the inbox, or its last event is the one [InboxStart true] and everything
+   before it — all its deliveries: Initialized, Started, and the Stopped /
+   Initialized / Started of restarts caused by panics in them — contains no
+   Inbox.Start: no worker exists while the spawner delivers; no user message
+   is delivered in [t0] (nothing is replayed).  The rest is the worker:
+   [RunLoop_s] is a sequence of batches, each handled by one [Invoke_s], and
+   [Exts_s] interleaves the Receive-free traces of the external operations
+   ([ext_pre_no_recv]) with further [RunLoop_s] *)
+Theorem C02_lifecycle_deliveries_before_the_inbox_opens :
+  forall f c xs s t, stopped_safe c -> run f c xs = (s, t) -> out_of_fuel t = false ->
+  exists s0 t0 s1 t1 t2,
+    start f c init_pst = (s0, t0, Normal) /\ t = t0 ++ t1 ++ t2 /\
+    ((dead s0 = true /\ Forall (fun e => match e with InboxStart _ => False | _ => True end) t0) \/
+     (dead s0 = false /\ exists pre, t0 = pre ++ [InboxStart true] /\
+        Forall (fun e => match e with InboxStart _ => False | _ => True end) pre)) /\
+    dlv t0 = [] /\
+    RunLoop_s c s0 s1 t1 /\ Exts_s c s1 xs s t2.
+Proof. exact C02_lifecycle_deliveries_before_the_inbox_opens_thm. Qed.
+Print Assumptions C02_lifecycle_deliveries_before_the_inbox_opens.
+
+Theorem C02_external_operations_deliver_nothing :
+  forall s x s1 t1, ext_pre s x = (s1, t1) ->
+  Forall (fun e => match e with Recv _ _ _ _ => False | _ => True end) t1.
+Proof. exact ext_pre_no_recv. Qed.
+Print Assumptions C02_external_operations_deliver_nothing.
+
+(* a restart runs inside the Invoke that crashed: tryRestart — Stopped to the
+   failed incarnation, the event, the delay, Start of the next incarnation
+   with Initialized, Started and the replay of the buffer — is called by that
+   Invoke's recover handler and its trace is the rest of that Invoke's trace
+   (likewise [start_S] for a panic in Initialized/Started); the worker's loop
+   takes the next batch only when Invoke has returned.  No premise. *)
+Theorem C02_restart_runs_inside_invoke :
+  (forall f c s msgs s' t o, invoke (S f) c s msgs = (s', t, o) ->
+     (exists np d, invoke_loop c s msgs 0 = (s', t, Normal, np, d) /\ o = Normal) \/
+     (exists s1 t1 b np d t2, invoke_loop c s msgs 0 = (s1, t1, Panicking b, np, d) /\
+        try_restart f c (upd_mbuf s1 (rbuf d np msgs)) b = (s', t2, o) /\ t = t1 ++ t2)) /\
+  (forall f c s s' t, run_loop (S f) c s = (s', t) -> istatus_stopped s = false -> queue s <> [] ->
+     exists s1 t1 o1, invoke f c (upd_queue s (skipn (batch c) (queue s))) (firstn (batch c) (queue s)) = (s1, t1, o1) /\
+       match o1 with
+       | Normal => exists t2, run_loop f c s1 = (s', t2) /\ t = t1 ++ t2
+       | Panicking _ => s' = s1 /\ t = t1 ++ [Escaped]
+       end).
+Proof. exact C02_restart_runs_inside_invoke_thm. Qed.
+Print Assumptions C02_restart_runs_inside_invoke.
+
 (** * C04 — lifecycle protocol *)
 
 (* the deliveries form the word: per incarnation Initialized, Started, user
